@@ -524,3 +524,299 @@ theorem lookups_work_off' {P : Sketch → Prop} (L : SketchLaws P) {p : Params} 
 
 end Unsync
 end MiniMoka
+
+namespace MiniMoka
+namespace Unsync
+
+open Spec
+
+/-! ### snapshots: weight and per-key lookup -/
+
+theorem find?_key_of_mem {α : Type} (key : α → Nat) {l : List α} {x : α} {k : Nat}
+    (hn : (l.map key).Nodup) (hx : x ∈ l) (hk : key x = k) :
+    l.find? (fun e => key e == k) = some x := by
+  induction l with
+  | nil => simp at hx
+  | cons a l ih =>
+    simp only [List.map_cons, List.nodup_cons] at hn
+    rcases List.mem_cons.mp hx with h | h
+    · subst h; simp [hk]
+    · have hne : key a ≠ k := by
+        intro e
+        exact hn.1 (List.mem_map.mpr ⟨x, h, by rw [hk, e]⟩)
+      simp [hne, ih hn.2 h]
+
+theorem find?_key_perm {α : Type} (key : α → Nat) {l l' : List α} (k : Nat)
+    (hn : (l.map key).Nodup) (hp : l'.Perm l) :
+    l'.find? (fun e => key e == k) = l.find? (fun e => key e == k) := by
+  have hn' : (l'.map key).Nodup := (hp.map key).nodup_iff.mpr hn
+  cases h : l.find? (fun e => key e == k) with
+  | none =>
+    rw [List.find?_eq_none] at h ⊢
+    intro x hx
+    exact h x (hp.mem_iff.mp hx)
+  | some x =>
+    have hx := List.mem_of_find?_eq_some h
+    have hk : key x = k := by simpa using List.find?_some h
+    exact find?_key_of_mem key hn' (hp.mem_iff.mpr hx) hk
+
+theorem find?_entryView (s : UState) (k : Nat) : ∀ (m : List (Nat × UEntry)),
+    (m.map (entryView s)).find? (fun e => e.key == k) =
+      (AL.get? m k).map (fun e => entryView s (k, e)) := by
+  intro m
+  induction m with
+  | nil => rfl
+  | cons a m ih =>
+    obtain ⟨k', e⟩ := a
+    simp only [List.map_cons, List.find?_cons, AL.get?_cons]
+    by_cases h : k' = k
+    · subst h; simp [entryView]
+    · have : ((entryView s (k', e)).key == k) = false := by simp [entryView, h]
+      rw [this]; simp [h, ih]
+
+theorem snapshot_find? {p : Params} {s : UState} (hs : Struct p s) (k : Nat) :
+    (snapshot p s).entries.find? (fun e => e.key == k) =
+      (AL.get? s.map k).map (fun e => entryView s (k, e)) := by
+  have hn : ((s.map.map (entryView s)).map (·.key)).Nodup := by
+    rw [List.map_map]
+    have : (s.map.map ((·.key) ∘ entryView s)) = AL.keys s.map := by
+      rw [AL.keys_eq_map]; apply List.map_congr_left; intro a _; rfl
+    rw [this]; exact hs.keysNodup
+  have h1 := find?_key_perm (fun e : EntryView => e.key) k hn (sortBy_perm (·.key) (s.map.map (entryView s)))
+  exact h1.trans (find?_entryView s k s.map)
+
+theorem snapshot_any {p : Params} {s : UState} (hs : Struct p s) (k : Nat) :
+    (snapshot p s).entries.any (fun e => e.key == k) = (AL.get? s.map k).isSome := by
+  have hgen : ∀ (l : List EntryView) (q : EntryView → Bool), l.any q = (l.find? q).isSome := by
+    intro l q
+    induction l with
+    | nil => rfl
+    | cons a l ih =>
+      simp only [List.any_cons, List.find?_cons]
+      cases q a <;> simp [ih]
+  rw [hgen, snapshot_find? hs k]
+  cases AL.get? s.map k <;> rfl
+
+theorem snapshot_weight {p : Params} {s : UState} (hi : InvU p s) :
+    snapWeight (snapshot p s) = s.ws := by
+  have := snapshot_counters hi
+  simp only [snapCountersOk, Bool.and_eq_true, beq_iff_eq] at this
+  exact this.1.2.symm
+
+end Unsync
+end MiniMoka
+
+namespace MiniMoka
+namespace Unsync
+
+open Spec
+
+/-! ### the trace oracle `boundC04` -/
+
+/-- The per-triple check of `Spec.boundC04` (`snap, op, snap`). -/
+def checkC04 (cap : Nat) (before : Snap) (op : Op) (after : Snap) : Bool :=
+  match op with
+  | .ins k _ =>
+    let wasThere := before.entries.any (fun e => e.key == k)
+    let grew := match before.entries.find? (fun e => e.key == k), after.entries.find? (fun e => e.key == k) with
+      | some b, some a => decide (b.weight < a.weight)
+      | _, _ => false
+    (grew || decide (snapWeight before > cap) || decide (snapWeight after ≤ cap)) &&
+    (wasThere || (match after.entries.find? (fun e => e.key == k) with
+                  | some a => decide (a.weight ≤ cap)
+                  | none => true))
+  | _ => decide (snapWeight before > cap) || decide (snapWeight after ≤ cap)
+
+theorem boundC04_triple (c : Nat) (before : Snap) (op : Op) (ob : Obs) (after : Snap) (rest : Trace) :
+    boundC04 c ((.snap, .snap before) :: (op, ob) :: (.snap, .snap after) :: rest) =
+      (checkC04 c before op after &&
+        (match ob with
+         | .panic _ => true
+         | _ => boundC04 c ((.snap, .snap after) :: rest))) := by
+  conv => lhs; unfold boundC04
+  rfl
+
+theorem boundC04_skip (c : Nat) (x : Op × Obs) (tr : Trace)
+    (h : ∀ b op ob a rest, x :: tr ≠ (.snap, .snap b) :: (op, ob) :: (.snap, .snap a) :: rest) :
+    boundC04 c (x :: tr) = boundC04 c tr := by
+  conv => lhs; unfold boundC04
+  split
+  · rename_i heq
+    exact absurd heq (h _ _ _ _ _)
+  · rename_i heq
+    cases heq
+    rfl
+  · rename_i heq
+    cases heq
+
+/-- An in-place update: the new entry replaces the old one under the same key. -/
+theorem insert_map_of_resident {p : Params} (hq : NoQuirks p) {s : UState} (hi : InvU p s)
+    {k : Nat} (v : Nat) {old : UEntry} (hg : AL.get? (maintain p s).map k = some old) :
+    (insert p s k v).map = AL.put (maintain p s).map k
+      { val := v, weight := p.weigh k v, ao := old.ao, wo := old.wo } := by
+  obtain ⟨h1, _, _⟩ := maintain_spec hq hi
+  unfold insert
+  dsimp only
+  rw [hg]
+  dsimp only
+  obtain ⟨id, n, _, _, _, heq⟩ := handleUpdate_eq (entry := { val := v, weight := p.weigh k v })
+    h1.struct hg (opTs p (maintain p s)) (p.weigh k v) (opTs_isSome p _)
+  rw [heq]
+  dsimp only
+  cases old.wo with
+  | none => simp only [touchAo]
+  | some wid =>
+    dsimp only
+    split
+    · simp only [touchAo, touchWo]
+    · split <;> simp only [touchAo]
+
+/-- The check of `boundC04` holds across every step of the model (from a state coupled with
+the reference bookkeeping, which is where the value of a freshly inserted entry comes from). -/
+theorem step_checkC04 {P : Sketch → Prop} (L : SketchLaws P) {p : Params} (hq : NoQuirks p)
+    (hsm : SmallSketch p) {s : UState} {g : Ghost} (hi : Inv P p s) (hc : Coupled p s g) {c : Nat}
+    (hcap : p.cap = some c) (op : Op) :
+    checkC04 c (snapshot p s) op (snapshot p (step p s op).1) = true := by
+  have hi' := step_inv L hq hsm hi op
+  have hbound : ¬ GrowingUpdate p s op →
+      (decide (snapWeight (snapshot p s) > c) ||
+        decide (snapWeight (snapshot p (step p s op).1) ≤ c)) = true := by
+    intro hng
+    rw [snapshot_weight hi.inv, snapshot_weight hi'.inv]
+    by_cases hle : s.ws ≤ c
+    · have := step_ws_le L hq hsm hi hcap op hng hle
+      simp [this]
+    · have : s.ws > c := by omega
+      simp [this]
+  cases op with
+  | ins k v =>
+    have hc' := (step_coupled L hq hsm hi hc (.ins k v)).2
+    have hst := step_state L hq hsm hi (.ins k v)
+    dsimp only at hst
+    obtain ⟨hm1, hm2, _⟩ := maintain_spec hq hi.inv
+    simp only [checkC04, Bool.and_eq_true]
+    rw [snapshot_find? hi.inv.struct, snapshot_find? hi'.inv.struct, snapshot_any hi.inv.struct]
+    refine ⟨?_, ?_⟩
+    · by_cases hgu : GrowingUpdate p s (.ins k v)
+      · obtain ⟨old, h1, h2⟩ := hgu
+        have h3 := hm2.sub k old h1
+        have h4 : AL.get? (step p s (.ins k v)).1.map k =
+            some { val := v, weight := p.weigh k v, ao := old.ao, wo := old.wo } := by
+          rw [hst, insert_map_of_resident hq hi.inv v h1, AL.get?_put_self]
+        rw [h3, h4]
+        simp [entryView, h2]
+      · have := hbound hgu
+        simp only [Bool.or_eq_true] at this ⊢
+        rcases this with h | h
+        · exact Or.inl (Or.inr h)
+        · exact Or.inr h
+    · cases hwas : AL.get? s.map k with
+      | some e0 => simp
+      | none =>
+        have hfresh : AL.get? (maintain p s).map k = none := by
+          cases h : AL.get? (maintain p s).map k with
+          | none => rfl
+          | some e => have := hm2.sub k e h; rw [hwas] at this; cases this
+        simp only [Option.isSome_none, Bool.false_or]
+        cases hafter : AL.get? (step p s (.ins k v)).1.map k with
+        | none => rfl
+        | some e =>
+          simp only [Option.map_some, entryView, decide_eq_true_eq]
+          by_cases hbig : c < p.weigh k v
+          · rw [hst, insert_oversized hcap k v hfresh hbig, hfresh] at hafter
+            cases hafter
+          · obtain ⟨ge, g1, _, g3, _⟩ := hc'.ents k e hafter
+            have hge : ge.val = v := by
+              simp only [ghostStep, AL.get?_put_self, Option.some.injEq] at g1
+              rw [← g1]
+            rw [hi'.inv.counted.weights k e hafter, ← g3, hge]
+            omega
+  | get k => exact hbound (by simp [GrowingUpdate])
+  | has k => exact hbound (by simp [GrowingUpdate])
+  | iter => exact hbound (by simp [GrowingUpdate])
+  | inv k => exact hbound (by simp [GrowingUpdate])
+  | invAll => exact hbound (by simp [GrowingUpdate])
+  | invIf pr => exact hbound (by simp [GrowingUpdate])
+  | sync => exact hbound (by simp [GrowingUpdate])
+  | adv d => exact hbound (by simp [GrowingUpdate])
+  | snap => exact hbound (by simp [GrowingUpdate])
+  | freq k => exact hbound (by simp [GrowingUpdate])
+
+end Unsync
+end MiniMoka
+
+namespace MiniMoka
+namespace Unsync
+
+open Spec
+
+theorem run_cons (p : Params) (s : UState) (op : Op) (rest : List Op) :
+    run p s (op :: rest) = (op, (step p s op).2) :: run p (step p s op).1 rest := rfl
+
+theorem step_snap {P : Sketch → Prop} (L : SketchLaws P) {p : Params} (hq : NoQuirks p)
+    (hsm : SmallSketch p) {s : UState} (hi : Inv P p s) :
+    step p s .snap = (s, .snap (snapshot p s)) := by
+  have h1 := step_state L hq hsm hi .snap
+  have h2 := step_obs L hq hsm hi .snap
+  dsimp only at h1 h2
+  exact Prod.ext h1 h2
+
+/-- `boundC04` accepts every run of the model from a state satisfying the invariant. -/
+theorem boundC04_run {P : Sketch → Prop} (L : SketchLaws P) {p : Params} (hq : NoQuirks p)
+    (hsm : SmallSketch p) {c : Nat} (hcap : p.cap = some c) :
+    ∀ (n : Nat) (h : List Op), h.length ≤ n → ∀ (s : UState) (g : Ghost), Inv P p s →
+      Coupled p s g → boundC04 c (run p s h) = true := by
+  intro n
+  induction n with
+  | zero =>
+    intro h hl s g _ _
+    have : h = [] := List.eq_nil_of_length_eq_zero (by omega)
+    subst this
+    simp [run, boundC04]
+  | succ n ih =>
+    intro h hl s g hi hc
+    cases h with
+    | nil => simp [run, boundC04]
+    | cons op1 t1 =>
+      rw [run_cons]
+      have hi1 := step_inv L hq hsm hi op1
+      have hc1 := (step_coupled L hq hsm hi hc op1).2
+      simp only [List.length_cons] at hl
+      have IH1 := ih t1 (by omega) _ _ hi1 hc1
+      by_cases hm : ∃ op2 t3, op1 = .snap ∧ t1 = op2 :: .snap :: t3
+      · obtain ⟨op2, t3, rfl, rfl⟩ := hm
+        rw [step_snap L hq hsm hi]
+        dsimp only
+        rw [run_cons, run_cons]
+        have hi2 := step_inv L hq hsm hi op2
+        have hc2 := (step_coupled L hq hsm hi hc op2).2
+        rw [step_snap L hq hsm hi2]
+        dsimp only
+        rw [boundC04_triple, Bool.and_eq_true]
+        refine ⟨step_checkC04 L hq hsm hi hc hcap op2, ?_⟩
+        have IH2 := ih (.snap :: t3) (by simp only [List.length_cons] at hl ⊢; omega) _ _ hi2 hc2
+        rw [run_cons, step_snap L hq hsm hi2] at IH2
+        dsimp only at IH2
+        split
+        · rfl
+        · exact IH2
+      · rw [boundC04_skip, IH1]
+        intro b op ob a rest heq
+        apply hm
+        injection heq with h1 h2
+        have hop1 : op1 = .snap := by injection h1
+        cases t1 with
+        | nil => simp [run] at h2
+        | cons op2 t2 =>
+          rw [run_cons] at h2
+          injection h2 with _ h3
+          cases t2 with
+          | nil => simp [run] at h3
+          | cons op3 t3 =>
+            rw [run_cons] at h3
+            injection h3 with h4 _
+            have hop3 : op3 = .snap := by injection h4
+            exact ⟨op2, t3, hop1, by rw [hop3]⟩
+
+end Unsync
+end MiniMoka
